@@ -67,8 +67,33 @@ def run(ctx):
                         + "].\nDefinition result := Eval vm_compute in vireport cases.\nPrint result.\n")
     res = common.eval_cases_files([vf])[vf]
     bad = res.get("bad", [])
+    # the gradient optimize_vi ascends is an ADEV estimate of the objective: composed flip programs (a REINFORCE /
+    # MVD / enumeration site followed by further parameter-dependent sites) judged by Model/CorrAdev.v as in C11
+    import p_adev
+    aout = os.path.join(ctx.scratch, "vi_adev.json")
+    pr = subprocess.run([common.PY, os.path.join(common.HARNESS, "worker_adev.py"), aout, str(ctx.seed * 100 + 55),
+                         str(18 if ctx.tier == "quick" else 180), "c11"], env=env, capture_output=True, text=True, cwd=ctx.scratch)
+    if pr.returncode != 0 or not os.path.exists(aout):
+        worker_errs.append(pr.stderr[-1500:])
+    else:
+        acs = [c for c in json.load(open(aout)) if c["kind"] in ("adev", "reparam")]
+        avf = os.path.join(ctx.scratch, "cases_vi_adev.v")
+        open(avf, "w").write("From Coq Require Import QArith Qcanon List Bool. Import ListNotations.\n"
+                             "From GV Require Import Model.Adev Model.CorrAdev.\nOpen Scope Qc_scope.\n"
+                             "Definition cases : list acase := [\n" + ";\n".join("  " + p_adev.acase(c) for c in acs)
+                             + "].\nDefinition result := Eval vm_compute in areport cases.\nPrint result.\n")
+        ar = common.eval_cases_files([avf])[avf]
+        off = len(cases)
+        for c in acs:
+            c["kind"] = "gradient-" + c["kind"]
+        cases.extend(acs)
+        if "error" in ar:
+            res = dict(res)
+            res["error"] = ar["error"]
+        else:
+            bad = list(bad) + [(off + i, a, s_, x) for (i, a, s_, x) in ar["bad"]]
     nt = len({json.dumps({k: v for k, v in c.items() if k not in ("value", "hist", "final")}, sort_keys=True) for c in cases
-              if "err" not in c and (c["kind"] == "fam" or c["kind"] == "vi" and c["n"] >= 2 or c["kind"] == "elbo" and c["nlatent"] >= 1)})
+              if "err" not in c and (c["kind"] == "fam" or c["kind"].startswith("gradient-") or c["kind"] == "vi" and c["n"] >= 2 or c["kind"] == "elbo" and c["nlatent"] >= 1)})
     return {"cases": cases, "bad": bad, "worker_errs": worker_errs, "coq_errs": [res["error"]] if "error" in res else [],
             "coverage": {"evaluations": len(cases), "distinct_nontrivial": nt,
                          "rule": "elbo: random @gen targets with 2-4 dyadic categorical sites (parent-dependent), random observed subsets, a variational family over the "
@@ -76,6 +101,7 @@ def run(ctx):
                                  "elbo_factory(...).estimate(params) in units of ln 2 compared exactly with the model and with log p(merged) - log q(z) from the spec densities. "
                                  "fam: mean_field_normal_family / full_covariance_normal_family (reparam) in 2-3 dimensions with scripted noise on a conjugate linear-Gaussian target: "
                                  "ELBO value and directional derivative w.r.t. mean and (off-diagonal) Cholesky factor compared with x = mean + chol @ eps in exact rationals (tolerance 1e-3). "
+                                 "gradient: composed flip programs with REINFORCE / MVD / enumeration sites and scripted outcomes, and batched reparameterised sites, judged as in C11 (the estimator optimize_vi ascends). "
                                  "vi: optimize_vi on -a*sum((p-b)^2) for scalar and vector parameters, learning rates {0,1/8,1/4,1/2}, 1-8 iterations: history, final parameters "
                                  "and shapes compared with the exact recurrence (tolerance 1e-4); non-trivial = distinct elbo case with a latent site / vi case with >=2 iterations",
                          "histogram": {"kinds": Counter(c["kind"] for c in cases),
